@@ -1,6 +1,7 @@
 """C03 — futures account always equals an average-cost margin account model."""
 from fractions import Fraction
 
+import acct
 import acctcorr
 import core
 import jesse_env
@@ -194,8 +195,20 @@ class C03(core.Check):
                 o = w.s.orders[k]
                 si = acctcorr.SYMS.index(o.symbol)
                 was = ref.qty[si]
-                w.execute(k)
+                # what a position hook fired by this fill sees: the books must already be those of the completed fill
+                # (the filled order no longer reserves margin while the position holds it)
+                seen = []
+                acct.StubStrategy.probe = (lambda order: seen.append(w.e.available_margin)) if oracle else None
+                try:
+                    w.execute(k)
+                finally:
+                    acct.StubStrategy.probe = None
                 ref.fill(k)
+                if oracle and seen and verdict is None:
+                    tolh = Fraction(1, 10**8)
+                    if abs(fr(seen[-1]) - ref.available()) > tolh * max(1, abs(ref.available())):
+                        verdict = ('available-margin/inside-position-hook', w.lines[-1], float(seen[-1]), float(ref.available()))
+                        break
                 if was != 0 and (abs(ref.qty[si]) < abs(was) or (was > 0) != (ref.qty[si] > 0)):
                     interesting += 1
                 if was != 0 and ref.qty[si] == 0:
